@@ -14,10 +14,11 @@ import (
 // userCallMon records the calls of user-supplied function values (struct
 // fields of function type, captured function variables).
 type userCall struct {
-	class string
-	args  []*eng.Term
-	res   []*eng.Term
-	pos   string
+	class  string
+	args   []*eng.Term
+	res    []*eng.Term
+	pos    string
+	fnTerm *eng.Term // the function value called (field / dynamic calls)
 }
 type userCallState struct{ calls []userCall }
 
@@ -37,6 +38,9 @@ func (s userCallState) Terms() []*eng.Term {
 	for _, c := range s.calls {
 		out = append(out, c.args...)
 		out = append(out, c.res...)
+		if c.fnTerm != nil {
+			out = append(out, c.fnTerm)
+		}
 	}
 	return out
 }
@@ -44,6 +48,9 @@ func (s userCallState) Rename(sub func(*eng.Term) *eng.Term) eng.MState {
 	n := userCallState{}
 	for _, c := range s.calls {
 		nc := userCall{class: c.class, pos: c.pos}
+		if c.fnTerm != nil {
+			nc.fnTerm = c.fnTerm.Map(sub)
+		}
 		for _, a := range c.args {
 			nc.args = append(nc.args, a.Map(sub))
 		}
@@ -62,7 +69,7 @@ func (userCallMon) Init() eng.MState { return userCallState{} }
 func (userCallMon) OnEvent(c *eng.Ctx, ms eng.MState, ev *eng.Event) eng.MState {
 	s := ms.(userCallState)
 	if ev.Kind == "call" && (strings.HasPrefix(ev.Class, "field:") || strings.HasPrefix(ev.Class, "dyn:") || strings.HasPrefix(ev.Class, "sum:")) && len(s.calls) < 4 {
-		n := userCallState{calls: append(append([]userCall(nil), s.calls...), userCall{class: ev.Class, args: ev.Args, res: ev.Results, pos: posStr(ev.Pos)})}
+		n := userCallState{calls: append(append([]userCall(nil), s.calls...), userCall{class: ev.Class, args: ev.Args, res: ev.Results, pos: posStr(ev.Pos), fnTerm: ev.FnTerm})}
 		return n
 	}
 	return s
@@ -332,6 +339,10 @@ func analyzeAnyAdapters(p *load.Program, r *Roles, res *UnitResult, vi, ei int) 
 		for _, fm := range forms {
 			ws := findWrappers(r, fm.fn)
 			w := ws[field]
+			if w == nil {
+				// the closure may come out of a helper: ask the engine what the setter stores
+				w = installedClosures(p, r, res, fm.fn)[field]
+			}
 			con := fm.label + ":wrapper"
 			if w == nil {
 				col.Check("C17.R3,C17.R4", con, false, p.Position(fm.fn.Pos()), "no wrapper closure stored into "+field+" found", nil)
@@ -419,7 +430,8 @@ func analyzeAnyAdapters(p *load.Program, r *Roles, res *UnitResult, vi, ei int) 
 						col.CheckAt("C17.R3,C17.R4,C04.R6", con, pth.rets[1] == uc.res[1], pth.pos, "the adapter must return the user's error itself, got "+pth.rets[1].Pretty(), nil)
 					case eng.TriTrue:
 						got := pth.rets[0]
-						ok := got.K == eng.KStruct && got.A[vi] == uc.res[0] && got.A[ei].K == eng.KNil && pth.rets[1].K == eng.KNil
+						isNil := func(t *eng.Term) bool { return t.K == eng.KNil || c.IsNil(t) == eng.TriTrue }
+						ok := got.K == eng.KStruct && got.A[vi] == uc.res[0] && isNil(got.A[ei]) && isNil(pth.rets[1])
 						col.CheckAt("C17.R3,C17.R4", con, ok, pth.pos, "the adapter must wrap the user's value exactly once, got "+got.Pretty(), nil)
 					default:
 						col.CheckAt("C17.R3,C17.R4,C04.R6", con, false, pth.pos, "the adapter returns without testing the user's error", nil)
@@ -470,6 +482,20 @@ func analyzeDelegators(p *load.Program, r *Roles, res *UnitResult) {
 			}
 			label := tn + "." + m + ":delegation"
 			paths := exploreAdapter(p, r, res, fn, Mode{PureFns: pf}, nil, nil, nil, "C01.ENGINE")
+			var configured []*eng.Term
+			for _, pth := range paths {
+				for _, uc := range pth.calls {
+					if uc.fnTerm != nil && (strings.HasPrefix(uc.class, "field:") || strings.HasPrefix(uc.class, "dyn:")) {
+						dup := false
+						for _, f := range configured {
+							dup = dup || f == uc.fnTerm
+						}
+						if !dup {
+							configured = append(configured, uc.fnTerm)
+						}
+					}
+				}
+			}
 			for _, pth := range paths {
 				for _, uc := range pth.calls {
 					// positional passthrough: argument j mentions only parameter j
@@ -502,6 +528,32 @@ func analyzeDelegators(p *load.Program, r *Roles, res *UnitResult) {
 						}
 					}
 					col.CheckAt("C01.R6", label, okR, pth.pos, "a phase method must return its callee's results in order: "+whyR, nil)
+					// delegation to another library phase method is transparent: the callee's
+					// results come back untouched (an error-state Result, a nil, a slice all
+					// keep their identity; C17.R5)
+					if strings.HasPrefix(uc.class, "sum:") && len(pth.calls) == 1 && !pth.panic && len(pth.rets) == len(uc.res) {
+						same, whyS := true, ""
+						for k := range pth.rets {
+							if pth.rets[k] != uc.res[k] {
+								same, whyS = false, fmt.Sprintf("result %d is %s, the callee returned %s", k, pth.rets[k].Pretty(), uc.res[k].Pretty())
+							}
+						}
+						col.CheckAt("C17.R5,C01.R6", tn+"."+m+":transparent", same, pth.pos, "a method that delegates to the embedded node's "+strings.TrimPrefix(uc.class, "sum:")+" must return that method's results unchanged: "+whyS, nil)
+					}
+				}
+				// a phase method does its work exactly once: the configured function, or the
+				// embedded default - never neither (an input silently passed over) and never twice
+				if !pth.panic && (m == "Prep" || m == "Exec" || m == "Post" || m == "ExecFallback") {
+					okOnce, whyOnce := len(pth.calls) <= 1, fmt.Sprintf("%d calls on one path", len(pth.calls))
+					if len(pth.calls) == 0 {
+						// fine only where no configured function is known to be set (inline default)
+						for _, f := range configured {
+							if pth.e.Eval(pth.st.Facts(), eng.Bin("!=", f, eng.Nil())) == eng.TriTrue {
+								okOnce, whyOnce = false, "the function "+f.Pretty()+" is set but the path returns without calling it"
+							}
+						}
+					}
+					col.CheckAt("C01.R6,C06.R8,C07.R7", tn+"."+m+":calls-once", okOnce, pth.pos, fmt.Sprintf("a phase method does its work exactly once per call - the configured function or the default, never neither (an input silently passed over) and never twice: in %s.%s %s", tn, m, whyOnce), nil)
 				}
 				// an adapter may report success only after it has seen the callee's error to be nil
 				for _, uc := range pth.calls {
@@ -647,4 +699,70 @@ func analyzeMethodSets(p *load.Program, r *Roles, res *UnitResult) {
 			col.Check("C01.R7", rw.name+":"+m+"-resolution", ok, pos, fmt.Sprintf("(*%s).%s resolves to %s.%s (expected one of %v): a phase would silently run a different implementation", rw.name, m, decl, m, allowed), nil)
 		}
 	}
+}
+
+// installedClosures explores a setter form (an option constructor or a builder method)
+// and returns the closures it stores into fields, keyed by "Type.field". Helpers that
+// build the closure are inlined by the engine, so the result does not depend on where
+// the function literal is written.
+func installedClosures(p *load.Program, r *Roles, res *UnitResult, fn *ssa.Function) map[string]*ssa.Function {
+	out := map[string]*ssa.Function{}
+	explore := func(root *ssa.Function, free []*eng.Term) *eng.Engine {
+		e := eng.New(eng.Config{Prog: p.Prog, Pkg: p.SSA, Fset: p.Fset, Root: root, RootFree: free, MaxDepth: 4, MaxStates: 20000,
+			Classify: r.Classifier(Mode{}), Monitors: []eng.Monitor{storeRecMon{}}, KeepFacts: true})
+		e.Run()
+		res.Stats.add(e, root)
+		return e
+	}
+	collect := func(e *eng.Engine) {
+		for _, rt := range e.Returns {
+			ss, _ := rt.State.MonByName(e, "storerec").(storeRecState)
+			for _, f := range ss.stores {
+				if f.val != nil && f.val.K == eng.KClosure {
+					if w, ok := f.val.Aux.(*ssa.Function); ok {
+						out[f.field] = w
+					}
+				}
+			}
+		}
+	}
+	e := explore(fn, nil)
+	collect(e)
+	if len(out) > 0 {
+		return out
+	}
+	// option form: the returned value is (or holds) the setter closure
+	for _, rt := range e.Returns {
+		if rt.Panic || len(rt.Vals) != 1 {
+			continue
+		}
+		var clo *eng.Term
+		v := rt.Vals[0]
+		switch {
+		case v.K == eng.KClosure:
+			clo = v
+		case v.K == eng.KBox:
+			c := &eng.Ctx{E: e, St: rt.State}
+			if obj := c.Mem(v.A[0]); obj.K == eng.KStruct {
+				for _, f := range obj.A {
+					if f.K == eng.KClosure {
+						clo = f
+					}
+				}
+			}
+		}
+		if clo == nil {
+			continue
+		}
+		cfn, ok := clo.Aux.(*ssa.Function)
+		if !ok {
+			continue
+		}
+		free := make([]*eng.Term, len(cfn.FreeVars))
+		for k, fv := range cfn.FreeVars {
+			free[k] = eng.Free(k, fv.Name())
+		}
+		collect(explore(cfn, free))
+	}
+	return out
 }
